@@ -347,6 +347,9 @@ func GetFingerprint(q string) string {
 				// and treat its newline as the previous (space) rune.
 				cpFromOffset = qi + 1
 				pr = r
+				// "-- " asks for a space after the text it copies; if there
+				// was nothing to copy the request must not outlive the comment.
+				addSpace = false
 			}
 			continue
 		} else if isSpace(r) && isSpace(pr) {
